@@ -161,8 +161,38 @@ fn lanczos_min(dense: &Vec<Vec<f64>>, b: &[f64], x0: &[f64], steps: usize) -> f6
     m
 }
 
+/// the solvers as methods of a storage built from RAW arrays (`from_vecs` validates nothing): inconsistent arrays make
+/// the first sparse product panic. Correspondence only (outside the claim of C08); keeps the storage guard of the model
+/// (`Sp.solveIter`) honest.
+fn krylov_vecs(t: &mut Toks, cx: &mut Ctx) -> String {
+    let solver = t.next().to_string();
+    let (rows, cols) = (t.usize(), t.usize());
+    let val: Vec<f64> = t.vec();
+    let ri = t.uvec();
+    let cs = t.uvec();
+    let b: Vector<f64> = rd_vector(t);
+    let x0: Vector<f64> = rd_vector(t);
+    let max_iter = t.usize();
+    let tol: f64 = t.get();
+    let itol = t.usize();
+    cx.meta("solver", &solver); cx.meta("class", "raw-arrays");
+    let s = match guarded(|| Sparse::from_vecs(rows, cols, val.clone(), ri.clone(), cs.clone())) { Ok(s) => s, Err(c) => return format!("!{}", c) };
+    let mut x = x0.clone();
+    let r = guarded(|| match solver.as_str() {
+        "cg" => s.solve_cg(&b, &mut x, max_iter, tol),
+        "bicg" => s.solve_bicg(&b, &mut x, max_iter, tol, itol),
+        "bicgstab" => s.solve_bicgstab(&b, &mut x, max_iter, tol),
+        _ => s.solve_qmr(&b, &mut x, max_iter, tol),
+    });
+    match &r {
+        Err(c) => { cx.meta("result", "panic"); format!("!{}", c) }
+        Ok(Ok(it)) => { cx.meta("result", "ok"); format!("ok {} | {}", it, wr_vector(&x)) }
+        Ok(Err(e)) => { cx.meta("result", "err"); format!("err {} | {}", f64_hex(*e), wr_vector(&x)) }
+    }
+}
+
 pub fn exec(op: &str, t: &mut Toks, cx: &mut Ctx) -> Option<String> {
-    match op { "krylov" => Some(krylov(t, cx, false)), "krylov9" => Some(krylov(t, cx, true)), _ => None }
+    match op { "krylov" => Some(krylov(t, cx, false)), "krylov9" => Some(krylov(t, cx, true)), "krylovv" => Some(krylov_vecs(t, cx)), _ => None }
 }
 
 /// dense system of one of the quantified kinds, returned as rows
@@ -250,6 +280,23 @@ pub fn gen(rng: &mut Rng, tier: Tier, out: &mut Vec<String>) {
         let mut b = vec![0.0f64; n]; b[k] = 1.0;
         for solver in SOLVERS { let tol = *rng.pick(&[1e-12, 1e-10, 1e-9, 1e-8]);
             out.push(format!("krylov {} nonsym {} {} {} {} {} {} {} 1", solver, n, n, trips_of(rng, &a), vstr(&b), vstr(&vec![0.0; n]), *rng.pick(&[50usize, 200]), tol.wr())); }
+    }
+    // storages built from raw arrays: well-formed ones and ones with perturbed column starts / short arrays / rows out of range
+    for i in 0..(if tier == Tier::Quick { 40 } else { 600 }) {
+        let n = 1 + rng.below(4);
+        let a = system(rng, n, if i % 2 == 0 { "dd" } else { "spd" });
+        let mut val: Vec<f64> = Vec::new(); let mut ri: Vec<usize> = Vec::new(); let mut cs = vec![0usize; n + 1];
+        for j in 0..n { for r in 0..n { if a[r][j] != 0.0 { val.push(a[r][j]); ri.push(r); } } cs[j + 1] = val.len(); }
+        if i % 4 != 0 { match rng.below(6) {
+            0 => { let k = rng.below(cs.len()); cs[k] += 1; }
+            1 => { cs[0] += 1; }
+            2 => { if !val.is_empty() { val.pop(); } }
+            3 => { if !ri.is_empty() { let k = rng.below(ri.len()); ri[k] = n + rng.below(2); } }
+            4 => { if !ri.is_empty() { ri.pop(); } }
+            _ => { let k = rng.below(cs.len()); cs[k] = cs[k].saturating_sub(1); }
+        } }
+        let b: Vec<f64> = (0..n).map(|_| rng.range(-8, 8) as f64 / 2.0).collect();
+        for solver in SOLVERS { out.push(format!("krylovv {} {} {} {} {} {} {} {} {} {} {}", solver, n, n, wr_vec(&val), wr_vec(&ri), wr_vec(&cs), vstr(&b), vstr(&vec![0.0; n]), 30, (1e-8f64).wr(), 1 + i % 3)); }
     }
     // malformed calls
     let a = system(rng, 3, "dd");
